@@ -61,6 +61,8 @@ def reduce_list(name, xs, skipna):
         p = 1
         for x in xs:
             p = p * x
+        if isinstance(p, int) and not isinstance(p, bool) and not -2 ** 63 <= p < 2 ** 63:
+            p = ((p + 2 ** 63) % 2 ** 64) - 2 ** 63      # NumPy's int64 product wraps around; so does the oracle
         return p
     if name == "mean":
         return sum(float(x) for x in xs) / n
